@@ -33,7 +33,8 @@ fn gen_line(rng: &mut Rng, r: &[u8]) -> Vec<u8> {
 }
 
 fn gen_case(rng: &mut Rng) -> XCase {
-    let rs: [&[u8]; 5] = [b"{}", b"_", b"%%", b"REPL", b"{"];
+    // (multi-byte replace strings: their length in bytes is not their length in characters)
+    let rs: [&[u8]; 7] = [b"{}", b"_", b"%%", b"REPL", b"{", "§".as_bytes(), "日本".as_bytes()];
     let r: &[u8] = rs[rng.below(rs.len())];
     let nlines = match rng.below(6) {
         0 => 0,
